@@ -116,7 +116,9 @@ def to_lib(desc):
     from CircuitCalculator.Network.network import Network, Branch
     _NUMBER_TYPE[0] = desc.get('number_type')
     try:
-        return Network([Branch(b['n1'], b['n2'], lib_element(b)) for b in desc['branches']], node_zero_label=desc['ref'])
+        # every label is handed over as a string object of its own (as after reading a file): equal labels are not identical objects
+        fresh = lambda s: ''.join(list(s)) if isinstance(s, str) and len(s) > 1 else s
+        return Network([Branch(fresh(b['n1']), fresh(b['n2']), lib_element(b)) for b in desc['branches']], node_zero_label=fresh(desc['ref']))
     finally:
         _NUMBER_TYPE[0] = None
 
